@@ -192,4 +192,5 @@ def run(chk, ctx):
     round3.tidy_up_callers(chk, ctx)            # siblings are only torn down when their fan-out really failed
     from . import round4
     round4.cancelled_wait_reports_canceller(chk, ctx)
+    round4.failed_fanout_torn_down(chk, ctx)
     chk.assume("given the decided clauses, whether a late sibling can still disturb the outcome depends on delivery order (not decided)")
